@@ -54,6 +54,14 @@ class AbsolutePathTestCaseError(CViseError):
         return f"Test case path cannot be absolute: '{self.path}'!"
 
 
+class ParentDirTestCaseError(CViseError):
+    def __init__(self, path):
+        self.path = path
+
+    def __str__(self):
+        return f"Test case path cannot contain '..': '{self.path}'!"
+
+
 class InvalidInterestingnessTestError(InvalidFileError):
     def __init__(self, path):
         super().__init__(path, None)
